@@ -100,6 +100,8 @@ def judge(pre, op, post, res, obs, meta):
                         V("create-chain", f"{ops.label(op)}: {rel} {w}", what=w)
                 elif len(tail) == 1 and tail[0].endswith(".mhl") and w == "created":
                     pass
+                elif len(tail) == 1 and tail[0] == "ascmhl_chain.xml.tmp" and p in obs["meta_pre"]:
+                    pass   # a stale temporary chain file is overwritten and renamed away by the run that writes the chain
                 else:
                     V("create-history-entry", f"{ops.label(op)}: {rel} {w} (only a new manifest and the chain file may change)",
                       what=w, manifest=tail[-1].endswith(".mhl"))
@@ -175,6 +177,13 @@ def states(ctx):
     S["altered-file-11"] = ops.edit(flat, ["write", "a.txt", b"altered"])
     S["new-file-21"] = ops.edit(flat, ["write", "new.bin", b"new"])
     S["nested-altered"] = ops.edit(nested, ["write", "d/c.txt", b"altered"])
+    # what an interrupted run (or a user) may leave inside ascmhl folders: stale temporary files, a note
+    left = dict(nested)
+    left["ascmhl/0002_root_2020-07-01_120000Z.mhl.tmp"] = nested[ref.generations(nested, "")[0]["path"]][:200]
+    left["ascmhl/ascmhl_chain.xml.tmp"] = b"<?xml version"
+    left["d/ascmhl/ascmhl_chain.xml.tmp"] = b""
+    left["d/ascmhl/notes.txt"] = b"a note somebody left here"
+    S["nested-with-leftovers"] = left
     return S
 
 
@@ -239,7 +248,7 @@ def main(tier, seed):
            "rule": "every command form (verify plain/-v/-sf/-dh/-dh -co/-dh -ro/-dh -h/-pl/-i, diff, info plain/-v/-sf with and "
                    "without root, hash, xsd-schema-check, flatten to an existing / new / nested destination, create with each "
                    "option incl. -sf into nested histories and creates at sub-directories) x states {no history, flat, nested, "
-                   "tampered manifest, missing child chain, missing / altered / new file}; plus every transition of the C06 and "
+                   "tampered manifest, missing child chain, missing / altered / new file, stale temporary files and a note inside the ascmhl folders}; plus every transition of the C06 and "
                    "C08 explorations; oracle = full (type, bytes, size, mtime_ns, mode) snapshot of the scratch base (root, "
                    "cwd, TMPDIR, destination) before/after + write-type audit events"}
     eng.assumptions.append("mtime of a directory in which this very command created an ascmhl folder may change (documented behaviour)")
